@@ -853,14 +853,14 @@ class RangePlugin(Plugin):
             start = match.group("start")
             end = match.group("end")
             if start:
-                # Strip the space before the "to"
-                start = start.rstrip()
+                # Strip the space before the "to" (and after the bracket)
+                start = start.strip()
                 # Strip single quotes
                 if start.startswith("'") and start.endswith("'"):
                     start = start[1:-1]
             if end:
-                # Strip the space before the "to"
-                end = end.lstrip()
+                # Strip the space after the "to" (and before the bracket)
+                end = end.strip()
                 # Strip single quotes
                 if end.startswith("'") and end.endswith("'"):
                     end = end[1:-1]
@@ -868,7 +868,9 @@ class RangePlugin(Plugin):
             startexcl = match.group("open") == self.excl_start
             endexcl = match.group("close") == self.excl_end
 
-            rn = syntax.RangeNode(start, end, startexcl, endexcl)
+            # (a bound of nothing but white space is no bound)
+            rn = syntax.RangeNode(start or None, end or None, startexcl,
+                                  endexcl)
             return rn
 
     def __init__(self, expr=None, excl_start="{", excl_end="}"):
